@@ -190,6 +190,12 @@ func (jc jsonCmp) cmpScalar(v val.Value, got interface{}) string {
 			return "empty-not-[null]"
 		}
 		return ""
+	case val.Any:
+		// the decoded JSON (json.Number leaves) against the content, both in canonical JSON
+		if model.CanonAny(got) != model.CanonAny(x.Thing) {
+			return "different-anydata-content"
+		}
+		return ""
 	}
 	if v.Format().IsNumeric() {
 		return num(v.String(), false)
